@@ -95,8 +95,9 @@ What is modelled literally
 * `has_cycle` swallows `NetworkXUnfeasible` only: a `RuntimeError` would propagate, hence
   `nxIsDirectedAcyclicGraph : Except NxErr Bool` (`G.is_directed()` is `True` for a `DiGraph`);
 * the `RuntimeError` branches (`node not in G`, `KeyError` on `indegree_map[child]`) are there, as written;
-  `CG.NxTopoProofs.*_no_runtimeError` prove that they are unreachable when `nodes` has no repetition and the edges lie
-  within `nodes` (what "the graph is not modified during iteration" amounts to);
+  `CG.NxTopoProofs.nxTopologicalSort_total` / `nxIsDag_total` / `nxLexTopo_total` prove that they are unreachable when
+  `nodes` has no repetition and the edges lie within `nodes` (what "the graph is not modified during iteration" amounts
+  to);
 * `all_topological_sorts`: one iteration of `while True` is `allStep`, on the state `(count, D, bases, current_sort)`,
   with the three `assert`s (→ `AssertionError`), the `KeyError` a missing `count[j]` would give, and the `IndexError`
   of `bases[-1]` on an empty list.  The deque `D` and the two stacks are stored REVERSED (head of the Lean list = right
@@ -115,8 +116,8 @@ What is abstracted
   measure.  `allRun` iterates `allStep` with an explicit budget; `nxAllTopologicalSorts` gives it
   `allFuel nodes.length` iterations (`T 0 = 1`, `T (r+1) = (r+1) * (1 + T r)`: one iteration per node of the search
   tree plus one per leaf) and answers `OutOfFuel` -- not a Python exception -- if that were not enough;
-  `CG.NxTopoProofs` proves that this never happens.  All other loops are fuel-free (measure: `indegree_map` entries plus
-  waiting nodes).
+  `CG.NxTopoProofs.allTopoRun_acyclic` / `allTopoRun_cyclic` prove that this never happens (nor any of the `assert`s,
+  `KeyError`, `IndexError`).  All other loops are fuel-free (measure: `indegree_map` entries plus waiting nodes).
 -/
 import CG.Model.EdgeList
 set_option linter.unusedSectionVars false
